@@ -265,6 +265,23 @@ def force_oracle(case, steps):
                 for c in seen:
                     t = ch['tasks'][c]
                     all_ids.add((ch['group'], f"{t['slug']}#{t['key']}"))
+                    all_members.append(t)
+            else:
+                # every chain of the MultiChain was resolved: forcing applies to every one of them
+                if op['recompute'] and s['out'] != 'error':
+                    # MultiChain.force is Chain.force on every chain: a task shared by n chains is recomputed once per
+                    # chain that holds it (C13 asks that forcing applies to every chain, C07 speaks of one chain)
+                    want = sorted(i[1] for i in all_ids)
+                    n_chains = len(op.get('chains', []))
+                    if any(not 1 <= s['runs'].count(w) <= n_chains for w in want):
+                        return (f'step {k}: MultiChain.force({op["names"]}, recompute=True) ran {sorted(s["runs"])}; the named '
+                                f'tasks and everything downstream in every chain are {want}: each must be recomputed')
+                if op['delete'] and not op['recompute'] and s['out'] != 'error':
+                    for t in all_members:
+                        data = next((x['data'] for x in case['classes'] if pl.slug_of(x) == t['slug']), 'json')
+                        path = '/'.join(t['slug'].split(':')) + f'/{t["key"]}.json'
+                        if data == 'json' and path in s['files']:
+                            return f'step {k}: MultiChain.force(..., delete_data=True) left {path} in place'
             for i in all_ids:
                 forced[i] = True
             if op['recompute'] and s['out'] != 'error':
